@@ -5,6 +5,7 @@
 // every log call returns after a bounded number of backend passes (it is never left waiting on an empty queue with an idle
 // backend), and all statements are delivered exactly once, complete and in order.
 #define CRASH_TAG "C09"
+#define CASE_TIMEOUT_S 300
 #include "quill/Backend.h"
 #include "quill/Frontend.h"
 #include "quill/LogMacros.h"
@@ -64,11 +65,14 @@ int main()
       std::string text = std::to_string(k++ % 10) + body; want.push_back(text);
       w.begin(text);
       // let the producer try on its own first; run backend passes only while it is blocked
-      int passes = 0; auto t0 = std::chrono::steady_clock::now();
+      // (the criterion is wall time with the backend polling all the while, not a number of passes: on a loaded machine the
+      //  producer thread may not be scheduled for many passes; a healthy call needs microseconds, a stuck one never returns)
+      long passes = 0; auto const start = std::chrono::steady_clock::now(); auto t0 = start;
       while (w.busy.load())
       {
-        if (std::chrono::steady_clock::now() - t0 > std::chrono::milliseconds{2}) { backend->poll_one(); ++passes; t0 = std::chrono::steady_clock::now(); }
-        if (passes > 50) { bounded_ok = false; worst = "statement #" + std::to_string(k - 1) + " (" + std::string(1, c) + ") still blocked after 50 backend passes"; break; }
+        auto const now = std::chrono::steady_clock::now();
+        if (now - t0 > std::chrono::microseconds{500}) { backend->poll_one(); ++passes; t0 = now; }
+        if (now - start > std::chrono::seconds{20}) { bounded_ok = false; worst = "statement #" + std::to_string(k - 1) + " (" + std::string(1, c) + ") still blocked after 20 s and " + std::to_string(passes) + " backend passes"; break; }
       }
       if (!bounded_ok) break;
     }
